@@ -442,10 +442,18 @@ def step (c : Cfg) (s : State) : Act → Option State
       else none
     | _ => none
   | .batchMove w b p =>
+    -- `steal_batch_and_pop` moves a batch into the poller's deque and pops one packet, atomically; the
+    -- model splits it into `batchMove`s around the `pollBucket`: after it (worker already `exec`), or
+    -- before it (worker still polling — it then forgets what it has seen empty, because it is about
+    -- to return `Steal::Success`)
     match s.pc w with
     | .exec _ =>
       if w < c.n ∧ b < c.L ∧ (s.bkt b).enabled ∧ (s.bkt b).isOpen ∧ p ∈ (s.bkt b).q then
         some (setBuf (setBkt s b { s.bkt b with q := removeP (s.bkt b).q p }) w (p :: s.buf w))
+      else none
+    | .polling _ =>
+      if w < c.n ∧ b < c.L ∧ (s.bkt b).enabled ∧ (s.bkt b).isOpen ∧ p ∈ (s.bkt b).q then
+        some (setPc (setBuf (setBkt s b { s.bkt b with q := removeP (s.bkt b).q p }) w (p :: s.buf w)) w (.polling []))
       else none
     | _ => none
   | .popLocal w p =>
